@@ -10,6 +10,12 @@ MUTATIONS = [
          edits=[("\t\"slices\"\n", ""),
                 ("		textAttrs:   append(slices.Clip(h.textAttrs), attrs...),",
                  "		textAttrs:   append(h.textAttrs, attrs...),")]),
+    # Sibling aliasing only where the parent's slice has spare capacity: Grow
+    # keeps it, Clip does not.
+    dict(name="c19-withattrs-grow-instead-of-clip", prop="C19", file="logutil/slogutil/jsonhybrid.go",
+         tests=["./logutil/slogutil/"], expect="DETECTED",
+         edits=[("		textAttrs:   append(slices.Clip(h.textAttrs), attrs...),",
+                 "		textAttrs:   append(slices.Grow(h.textAttrs, len(attrs)), attrs...),")]),
     # Accumulated attributes are lost on the second derivation.
     dict(name="c19-withattrs-only-new", prop="C19", file="logutil/slogutil/jsonhybrid.go",
          tests=["./logutil/slogutil/"], expect="DETECTED",
